@@ -260,9 +260,12 @@ theorem iterExt_entry_ge_spanLB (d : List Nat) (hwf : curveWF d) (h2 : 2 ≤ d.l
 
 theorem curveN_small (d : List Nat) (hwf : curveWF d) (x : Nat) (hx1 : 1 ≤ x)
     (hx : x < d.getLastD 0) : curveN d x = 1 + countLt d x := by
-  have := curveN_closed d hwf 0 x hx
-  rw [Nat.zero_mul, Nat.zero_add, Nat.zero_mul, Nat.zero_add, if_neg (by omega)] at this
-  exact this
+  rw [curveN_closed0 d hwf x (Nat.le_of_lt hx), if_neg (by omega)]
+
+/-- as `curveN_small`, including the largest distance itself -/
+theorem curveN_small_le (d : List Nat) (hwf : curveWF d) (x : Nat) (hx1 : 1 ≤ x)
+    (hx : x ≤ d.getLastD 0) : curveN d x = 1 + countLt d x := by
+  rw [curveN_closed0 d hwf x hx, if_neg (by omega)]
 
 /-- tightening inside the covered horizon: for window lengths below the largest
 extrapolated distance the extrapolated curve never claims more arrivals than the
@@ -513,13 +516,21 @@ theorem xcurveN_step_iff (d : List Nat) (hwf : curveWF d) (h2 : 2 ≤ d.length) 
 theorem curveN_singleton (T x : Nat) (hT : 1 ≤ T) : curveN [T] x = ceilDiv x T := by
   by_cases hx : x = 0
   · subst hx; simp [curveN, ceilDiv]
-  · have hlt := Nat.mod_lt x hT
-    unfold curveN ceilDiv
-    rw [if_neg hx]
+  · have hwf : curveWF [T] := ⟨by simp, by simp, hT⟩
+    obtain ⟨c, t, ht1, ht, hxe, hN⟩ := curveN_decomp [T] hwf x (by omega)
     have hl : [T].getLastD 0 = T := rfl
-    simp only [hl, List.headD_cons, List.length_singleton, Nat.mul_one]
-    rw [if_neg (by omega)]
-    split <;> split <;> omega
+    rw [hl] at ht hxe
+    have hc : countLt [T] t = 0 := countLt_eq_zero _ _ (fun v hv => by
+      rw [List.mem_singleton] at hv; omega)
+    rw [hN, hc, List.length_singleton, Nat.mul_one]
+    unfold ceilDiv
+    by_cases htT : t = T
+    · have e : x = T * (c + 1) + 0 := by rw [Nat.mul_succ, Nat.mul_comm]; omega
+      have := (Nat.div_mod_unique (a := x) (d := c + 1) (c := 0) hT).2 ⟨by omega, hT⟩
+      rw [this.1, this.2]; simp
+    · have := (Nat.div_mod_unique (a := x) (d := c) (c := t) hT).2
+        ⟨by rw [Nat.mul_comm]; omega, by omega⟩
+      rw [this.1, this.2, if_pos (by omega)]
 
 /-- C11 for `ExtrapolatingCurve` -/
 theorem xcurve_steps_spec (d : List Nat) (hwf : curveWF d) (H : Nat) :
